@@ -53,7 +53,8 @@ def _run(sc, r, scratch, i):
     op, cfg, g = sc["op"], sc["cfg"], sc["group"]
     if (g.get("match_links") or cfg.get("match_links")) and g.get("symbolic_links"):
         return []  # documented-dangerous combination, excluded by the property
-    res, gargv = ddcase.run_group_for(sc, troot, home)
+    amb = common.ambient_env(r, elsewhere=d)
+    res, gargv = ddcase.run_group_for(sc, troot, home, extra_env=amb)
     witness = {"case": i, "scenario": {k: sc[k] for k in ("group", "fmt", "op", "cfg")}, "spec": sc["spec"],
                "group_argv": [fsd(a) for a in gargv], "group_rc": res.rc, "group_stderr": res.err_text()[-1500:]}
     if res.timed_out:
@@ -95,6 +96,7 @@ def _run(sc, r, scratch, i):
         before.update(inventory.take(sd))
     log = os.path.join(d, "shim.log")
     env = shimlog.shim_env(log, [troot] + ([target] if target else []), ficlone=emulate)
+    env.update(amb)
     # the dedupe command need not run where `group` ran (the report carries absolute paths and its base directory)
     dcwd = r.choice([troot, troot, d, "/"])
     dres, dargv = dd.run_dedupe(op, cfg, report, dcwd, home, target=target, extra_env=env)
